@@ -31,7 +31,7 @@ FIT_FLAG = {"clf": "fit_clf", "reg": "fit_reg", "ensemble": "fit_ensemble"}
 
 
 def gen_cases(tier, seed):
-    reps = {"quick": 5, "thorough": 40}[tier]
+    reps = {"quick": 5, "thorough": 150}[tier]
     cases = []
     for name, e in POOL.items():
         r = max(2, reps // e.slow)
@@ -40,7 +40,7 @@ def gen_cases(tier, seed):
             cases.append({"entry": name, "seed": s, "wrap": WRAPS[(i + s) % len(WRAPS)] if i else "none", "prefit": bool((i // 2) % 2),
                           "weights": bool((s >> 3) % 2), "nq": 1 + (s >> 5) % 3,
                           "nmax": 12 if tier == "quick" else 24})
-    r = {"quick": 12, "thorough": 80}[tier]
+    r = {"quick": 12, "thorough": 300}[tier]
     for i in range(r):
         cases.append({"entry": "IntervalEstimationThreshold", "seed": stable_hash(seed, "C05", "iet", i),
                       "wrap": "iet", "prefit": bool(i % 2), "weights": False, "nq": 1 + i % 2,
@@ -100,6 +100,17 @@ def run_case(desc):
         if call is None:
             return {"status": "skip", "skip_reason": "wrapper not applicable"}
     make, kw, label, comp, fit_mode = call["make"], call["kw"], call["label"], call["comp"], call["fit_mode"]
+    if desc["seed"] % 3 == 0:
+        # random_state given as a RandomState instance: the caller's generator is a parameter like any other and must
+        # not be advanced by a query (get_params fingerprints include the full generator state)
+        base_make = make
+
+        def make():
+            q = base_make()
+            rs = q.get_params(deep=False).get("random_state")
+            if isinstance(rs, (int, np.integer)):
+                q.set_params(random_state=np.random.RandomState(int(rs)))
+            return q
     qs = make()
     viol = []
 
